@@ -43,6 +43,7 @@ type Report struct {
 	Exhaustive   bool        `json:"exhaustive"`
 	Bound        string      `json:"bound_completed"`
 	Caps         []string    `json:"caps,omitempty"`
+	Supporting   bool        `json:"supporting,omitempty"` // sampled pass that validates an assumption; excluded from totals and from the exhaustive verdict
 	Assumptions  []string    `json:"assumptions,omitempty"`
 	Violations   []Violation `json:"violations,omitempty"`
 	DetChecked   int64       `json:"determinism_checks"`
